@@ -43,6 +43,7 @@ def run(ctx):
     ctx.guard(r4_merges)
     ctx.guard(r5_window)
     ctx.guard(r6_space)
+    ctx.guard(r7_numeric_keys)
 
 
 def _walk(stmts):
@@ -567,3 +568,49 @@ def r6_space(ctx):
                 "sooner), so the fills exceed the optimal policy's and can grow "
                 "with capacity" % (short_txt, text(loops[0].test)),
                 text_="cache room shortcut")
+
+
+# -- R7: stamps / points read from a trace file are compared as numbers -------------
+
+def r7_numeric_keys(ctx):
+    """filterTrace and _combineTraces order rows by tuples parsed from CSV
+    text.  Text compares lexicographically ('10' < '9'), so every tuple built
+    from a `.split(',')` that one of their helpers returns must convert its
+    fields with int()."""
+    n = 0
+    for key, helper in ((T + "filterTrace", "get_data"), (T + "_combineTraces", "next_line")):
+        outer = ctx.func(key)
+        hs = [m for m in ctx.prog.funcs.values() if m.outer is outer and m.name == helper]
+        ctx.require(len(hs) == 1, "C17.R7: helper %s of %s not found" % (helper, key))
+        h = hs[0]
+        split_vars = set()
+        for a in h.own_nodes():
+            if isinstance(a, ast.Assign) and isinstance(a.targets[0], ast.Name) and \
+                    any(isinstance(x, ast.Call) and isinstance(x.func, ast.Attribute)
+                        and x.func.attr == "split" for x in ast.walk(a.value)):
+                split_vars.add(a.targets[0].id)
+        for r in pat.returns(h):
+            vals = r.value.elts if isinstance(r.value, ast.Tuple) else [r.value]
+            for v in vals:
+                if not (isinstance(v, ast.Call) and text(v.func) == "tuple" and v.args):
+                    continue
+                a0 = v.args[0]
+                names = {x.id for x in ast.walk(a0) if isinstance(x, ast.Name)}
+                if not (names & split_vars):
+                    continue
+                n += 1
+                conv = isinstance(a0, (ast.GeneratorExp, ast.ListComp)) and \
+                    isinstance(a0.elt, ast.Call) and text(a0.elt.func) == "int" and \
+                    len(a0.generators) == 1 and isinstance(a0.generators[0].target, ast.Name) \
+                    and a0.elt.args and text(a0.elt.args[0]) == a0.generators[0].target.id
+                if conv:
+                    ctx.ok("C17.R7", h, v, "fields converted with int() before "
+                           "they are compared", text_="%s numeric key" % helper)
+                else:
+                    ctx.bad("C17.R7", h, v, "%s returns `%s`: the fields of the "
+                            "CSV row stay text, and the rows are then ordered "
+                            "lexicographically ('10' < '9'): the two-pointer "
+                            "scan advances the wrong side and drops / misorders "
+                            "rows once a coordinate or stamp has two digits"
+                            % (helper, text(v)[:60]), text_="%s numeric key" % helper)
+    ctx.floor("C17.R7", n, 2, "ordering keys parsed from trace rows")
